@@ -1515,6 +1515,26 @@ Proof.
   split; [exact K1|]. split; [exact K2|]. split; [exact K3|]. split; assumption.
 Qed.
 
+(* ... and Request.lock is free (what a StreamWriter op needs): on a fault-free transport every AWAITED read ends with
+   the reply flush completed (ConnTotal.await_input_unlocked) *)
+Definition HSL (r : rstate) (w : world) : Prop := HS r w /\ rlock r = false.
+
+Lemma HSL_ev r w e : HSL r w -> HSL r (w_ev w e).
+Proof. intros [H L]. split; [apply HS_ev; exact H|exact L]. Qed.
+
+Lemma await_input_hsl fuel dest r w : HSL r w ->
+  match await_input maxc fuel dest r w with
+  | Ok (_, r') w' => HSL r' w'
+  | Halt o _ => o <> ODeadlock
+  end.
+Proof.
+  intros [H L]. pose proof (await_input_hs fuel dest r w H) as A.
+  pose proof (await_input_unlocked (fun b => b) maxc fuel dest r w) as U.
+  destruct (await_input maxc fuel dest r w) as [[x r'] w'|o w']; [|exact A]. split; [exact A|].
+  destruct H as (H1 & H2 & H3 & _).
+  apply (U x r' w' (pinv_lgood _ H1) (remaining_world_ok _ H2) L H3 eq_refl).
+Qed.
+
 Lemma consume_hs r w c wr lk ab : HS r w -> HS (mkR (consume_stream (rsp r) c) wr lk ab) w.
 Proof.
   intros ([HRI HI0] & H2 & H3 & H4 & [H5 H6]). pose proof (consume_stream_abs (rsp r) c HRI) as CA.
@@ -1562,6 +1582,31 @@ Proof.
   destruct (n =? 0); [exact A|]. apply IH. exact A.
 Qed.
 
+Lemma do_writeable_hsl r w : HSL r w ->
+  match do_writeable maxc r w with
+  | Ok (_, r') w' => HSL r' w'
+  | Halt o _ => o <> ODeadlock
+  end.
+Proof.
+  intros [H L]. unfold do_writeable. destruct (rwriteable r); [split; assumption|].
+  destruct (set_stream (rsp r) _) as [p'| |] eqn:E; [|discriminate|discriminate].
+  pose proof (await_input_hsl (io_fuel w 0) None _ w
+                (conj (set_stream_hs r w _ p' false (rlock r) (raborted r) H E) L)) as A.
+  destruct (await_input maxc (io_fuel w 0) None (mkR p' false (rlock r) (raborted r)) w) as [[[x|k] r'] w'|o w']; exact A.
+Qed.
+
+Lemma read_all_hsl : forall fuel acc r w, HSL r w ->
+  match read_all maxc fuel acc r w with
+  | Ok (_, r') w' => HSL r' w'
+  | Halt o _ => o <> ODeadlock
+  end.
+Proof.
+  induction fuel as [|f IH]; intros acc r w H; [cbn [read_all]; discriminate|]. cbn [read_all].
+  pose proof (await_input_hsl (io_fuel w 0) (Some 64) r w H) as A.
+  destruct (await_input maxc (io_fuel w 0) (Some 64) r w) as [[[[n b]|k] r'] w'|o w']; [|exact A|exact A].
+  destruct (n =? 0); [exact A|]. apply IH. exact A.
+Qed.
+
 Lemma stream_records_F stype id data : wholeF (stream_records stype id data).
 Proof.
   rewrite stream_records_enc. exists (map (chunk_rcd stype id) (chunks data)). split; [|reflexivity].
@@ -1594,45 +1639,58 @@ Proof.
   - destruct o; try contradiction; discriminate.
 Qed.
 
-Lemma run_handler_hs strict role cur script : script_ok strict role cur script -> no_abandoned_read script ->
-  forall f r w, HS r w ->
+Lemma run_handler_hsl strict role cur script : script_ok strict role cur script -> no_abandoned_read script ->
+  forall f r w, HSL r w ->
   match run_handler maxc f script r w with
-  | Ok (_, r') w' => HS r' w'
+  | Ok (_, r') w' => HSL r' w'
   | Halt o _ => o <> ODeadlock
   end.
 Proof.
   induction 1 as [cur|cur n rest H IH|cur rest H IH|cur k rest H IH|cur s rest Hacc H IH|cur rest H IH
                   |cur s n rest H IH|cur s rest H IH|cur d c rest Hd|cur k rest|cur n rest H IH|cur n rest H IH];
     intros NA; try (specialize (IH ltac:(inversion NA; assumption))); intros f r w HSr; (destruct f as [|f]; [cbn [run_handler]; discriminate|]); cbn [run_handler].
-  - apply HS_ev, HSr.
-  - pose proof (await_input_hs (io_fuel w 0) (Some n) r w HSr) as A.
+  - apply HSL_ev, HSr.
+  - pose proof (await_input_hsl (io_fuel w 0) (Some n) r w HSr) as A.
     destruct (await_input maxc (io_fuel w 0) (Some n) r w) as [[[[c b]|k] r1] w1|o w1]; [| |exact A];
-      apply IH; apply HS_ev, HS_ev, A.
-  - match goal with |- context [read_all maxc ?fu [] r w] => pose proof (read_all_hs fu [] r w HSr) as A;
+      apply IH; apply HSL_ev, HSL_ev, A.
+  - match goal with |- context [read_all maxc ?fu [] r w] => pose proof (read_all_hsl fu [] r w HSr) as A;
       destruct (read_all maxc fu [] r w) as [[[k acc] r1] w1|o w1] end; [|exact A].
-    apply IH. apply HS_ev, HS_ev, A.
-  - pose proof (await_input_hs (io_fuel w 0) None r w HSr) as A.
+    apply IH. apply HSL_ev, HSL_ev, A.
+  - pose proof (await_input_hsl (io_fuel w 0) None r w HSr) as A.
     destruct (await_input maxc (io_fuel w 0) None r w) as [[[[c b]|e] r1] w1|o w1]; [| |exact A].
-    + apply IH. apply HS_ev, HS_ev. apply consume_hs. exact A.
-    + apply IH. apply HS_ev, HS_ev, A.
+    + apply IH. apply HSL_ev, HSL_ev. split; [apply consume_hs; apply A|apply A].
+    + apply IH. apply HSL_ev, HSL_ev, A.
   - destruct (set_stream (rsp r) (Some s)) as [p'| |] eqn:E; [|discriminate|discriminate].
-    apply IH. apply HS_ev. apply (set_stream_hs r w (Some s) p' _ _ _ HSr E).
-  - pose proof (do_writeable_hs r w HSr) as A.
-    destruct (do_writeable maxc r w) as [[e r1] w1|o w1]; [|exact A]. apply IH. apply HS_ev, A.
-  - destruct (negb (rwriteable r)); [apply IH; apply HS_ev, HSr|].
-    pose proof (writer_hs (N.to_nat (n / 65535) + 2) s (r_id (sreq (rsp r))) (take n rest) r w HSr) as A.
+    apply IH. apply HSL_ev. split; [apply (set_stream_hs r w (Some s) p' _ _ _ (proj1 HSr) E)|apply HSr].
+  - pose proof (do_writeable_hsl r w HSr) as A.
+    destruct (do_writeable maxc r w) as [[e r1] w1|o w1]; [|exact A]. apply IH. apply HSL_ev, A.
+  - destruct (negb (rwriteable r)); [apply IH; apply HSL_ev, HSr|].
+    (* the lock is free: the writer does not wait *)
+    rewrite (proj2 HSr). cbn [andb].
+    pose proof (writer_hs (N.to_nat (n / 65535) + 2) s (r_id (sreq (rsp r))) (take n rest) r w (proj1 HSr)) as A.
     destruct (writer_write_all (N.to_nat (n / 65535) + 2) s (r_id (sreq (rsp r))) (take n rest) w) as [[k|] w1|o w1];
       [contradiction| |exact A].
-    apply IH. apply HS_ev, A.
-  - destruct (rwriteable r); apply IH; apply HS_ev, HSr.
-  - apply HS_ev, HSr.
-  - apply HS_ev, HSr.
-  - pose proof (await_input_hs (io_fuel w 0) (Some n) r w HSr) as A.
+    apply IH. apply HSL_ev. split; [exact A|apply HSr].
+  - rewrite (proj2 HSr). destruct (rwriteable r); apply IH; apply HSL_ev, HSr.
+  - apply HSL_ev, HSr.
+  - apply HSL_ev, HSr.
+  - pose proof (await_input_hsl (io_fuel w 0) (Some n) r w HSr) as A.
     destruct (await_input maxc (io_fuel w 0) (Some n) r w) as [[[[c b]|k] r1] w1|o w1]; [| |exact A].
-    + apply IH. apply HS_ev, HS_ev, A.
-    + apply HS_ev, HS_ev, A.
+    + apply IH. apply HSL_ev, HSL_ev, A.
+    + apply HSL_ev, HSL_ev, A.
   - (* 11 n is not a script that awaits its reads *)
     inversion NA.
+Qed.
+
+Lemma run_handler_hs strict role cur script : script_ok strict role cur script -> no_abandoned_read script ->
+  forall f r w, HS r w -> rlock r = false ->
+  match run_handler maxc f script r w with
+  | Ok (_, r') w' => HS r' w'
+  | Halt o _ => o <> ODeadlock
+  end.
+Proof.
+  intros Hs NA f r w H L. pose proof (run_handler_hsl strict role cur script Hs NA f r w (conj H L)) as A.
+  destruct (run_handler maxc f script r w) as [[x r'] w'|o w']; [apply A|exact A].
 Qed.
 
 (* ---- input.read(buf).await outside poll_input: Request::record_boundary, Token::parse_request ---- *)
@@ -1919,11 +1977,11 @@ Proof.
   assert (Hscript : script_ok true role (next_input_stream role None) script).
   { subst script. apply (Forall_nth_default (fun s => forall role, script_ok true role (next_input_stream role None) s));
       [exact Hscripts|]. apply Forall_last; [exact Hscripts|]. intros role'. constructor. }
-  pose proof (run_handler_ok norm maxc true role _ script Hscript (length script + 2) r0 w2 ltac:(lia) GR0
-                (ws_ok _ _ S2 (ws_ok _ _ S1 Wok)) eq_refl St0) as RH.
+  pose proof (run_handler_ok norm maxc LAny true role _ script Hscript I (length script + 2) r0 w2 ltac:(lia) GR0
+                (ws_ok _ _ S2 (ws_ok _ _ S1 Wok)) eq_refl St0 I) as RH.
   assert (Hnascript : no_abandoned_read script).
   { subst script. apply Forall_nth_default; [exact Hna|]. apply Forall_last; [exact Hna|constructor]. }
-  pose proof (run_handler_hs maxc true role _ script Hscript Hnascript (length script + 2) r0 w2 HS2) as RN.
+  pose proof (run_handler_hs maxc true role _ script Hscript Hnascript (length script + 2) r0 w2 HS2 eq_refl) as RN.
   unfold hpost in RH.
   destruct (run_handler maxc (length script + 2) script r0 w2) as [[st r1] w3|o w3]; [|cbn [fst]; exact RN].
   destruct RH as ((G1 & S3 & _) & Hst).
@@ -1956,7 +2014,7 @@ Theorem peer_never_deadlocks : peer_never_deadlocks_stmt.
 Proof.
   intros norm maxc scripts B sg w0 HB Hs Hna Hsegs Hpeer Hlog Hnf _ _ _ _.
   assert (Wok : world_ok w0) by (unfold world_ok; rewrite Hsegs; apply (peer_segs_world sg 0 Hpeer)).
-  destruct (run_loop_total norm maxc scripts B w0 Wok Hs HB) as (w & [E|[E _]]); [rewrite E; reflexivity|].
+  destruct (run_loop_total norm maxc scripts B w0 Wok Hs HB) as (w & [E|E]); [rewrite E; reflexivity|].
   exfalso. apply (run_loop_nd norm maxc scripts Hs Hna (nb w0 + 4) (new_parser B) 0%nat w0 (new_parser_ok B HB) Wok);
     [|rewrite E; reflexivity].
   split; [apply world_ok_remaining; exact Wok|]. split; [exact Hnf|].
@@ -2039,9 +2097,11 @@ Qed.
    (the end of Stdin) is released after one management reply, the transport accepts 3 bytes and is then not ready once
    (wscript = [3; 0]).  The handler reads "abc" (the reply to the query is now pending in the parser's output buffer),
    polls a read once and drops it (op 11: poll_output has written 3 bytes of the reply when the transport returns
-   Pending), writes "hi" to Stdout, reads to the end.  Every other hypothesis of the theorem holds -- the script is
-   well-formed, the client asks for one reply and is owed one -- but the Stdout record lies in the middle of the cut reply,
-   the client cannot count it and the task ends in the wait-for cycle.  With the read awaited (op 1) the same run returns. *)
+   Pending, with Request.lock held), then writes "hi" to Stdout and would read to the end.  Every other hypothesis of the
+   theorem holds -- the script is well-formed, the client asks for one reply and is owed one -- but the StreamWriter waits
+   for Request.lock, which only another poll of the request's input could release: the reply is never completed (3 of its
+   bytes are in the log), nothing of "hi" is written, the client cannot count the reply and the task ends in the wait-for
+   cycle (known finding F6).  With the read awaited (op 1) the same run returns. *)
 Definition ex2p_rs1 : list rcd :=
   [ mkRcd RT_BeginRequest 1 (begin_encode ROLE_Responder 0) [];
     mkRcd RT_Params 1 [] [];
@@ -2074,9 +2134,13 @@ Qed.
 
 Example ex2p_abandoned_read_deadlocks :
   let r := run_loop (fun b => b) 10 (nb ex2p_w + 4) (new_parser 64) (ex2p_scripts 11) 0 ex2p_w in
-  fst r = ODeadlock /\ counts (wlog (snd r)) = (0, 0) /\ remaining (snd r) = enc_rcds [ mkRcd 5 1 [] [] ] /\
-  In [11; 2; 0; 1] (events (snd r)) /\ In [6; 0] (events (snd r)).
-Proof. vm_compute. repeat split; try reflexivity; tauto. Qed.
+  fst r = ODeadlock /\ wlog (snd r) = [1; 10; 0] /\ counts (wlog (snd r)) = (0, 0) /\
+  remaining (snd r) = enc_rcds [ mkRcd 5 1 [] [] ] /\
+  In [11; 2; 0; 1] (events (snd r)) /\ ~ In [6; 0] (events (snd r)).
+Proof.
+  vm_compute. repeat split; try reflexivity; try tauto.
+  intros H. repeat (destruct H as [H|H]; [discriminate H|]). exact H.
+Qed.
 
 Example ex2p_awaited_read_returns :
   let r := run_loop (fun b => b) 10 (nb ex2p_w + 4) (new_parser 64) (ex2p_scripts 1) 0 ex2p_w in
